@@ -15,11 +15,12 @@ from . import tgen
 
 
 class Step:
-    __slots__ = ("model", "real", "exc", "desc", "oracle", "opname", "args", "malformed")
+    __slots__ = ("model", "real", "exc", "desc", "oracle", "opname", "args", "malformed", "model0")
 
     def __init__(self, model, real=None, exc=None, desc=None, oracle=None, opname="", args=(), malformed=False):
         self.model, self.real, self.exc, self.desc, self.oracle = model, real, exc, desc, oracle
         self.opname, self.args, self.malformed = opname, args, malformed
+        self.model0 = model
 
 
 def leg_dict(leg):
@@ -90,6 +91,10 @@ class ProgGen:
     def _push(self, model, real=None, exc=None, oracle=None, opname="", args=(), malformed=False):
         self.vals.append(real)
         st = Step(model, real, exc, None, oracle, opname, args, malformed)
+        m0 = getattr(self, "_model0", None)
+        if m0 is not None:
+            st.model0 = m0
+        self._model0 = None
         self.steps.append(st)
         return len(self.vals) - 1
 
@@ -112,6 +117,7 @@ class ProgGen:
             exc = None
         except Exception as e:  # noqa: BLE001 — any rejection is recorded, classified later
             r, exc = None, e
+        model0 = model
         if model is not None and not self.modelled(*model.get("a", [])):
             model = None   # an operand is outside the model (fused legs, float data)
         if model is None:
@@ -121,6 +127,7 @@ class ProgGen:
                 model = {"f": "input", "a": [], "tensor": tgen.to_model(r), "resync": opname}
             else:
                 model = {"f": "opaque", "a": []}
+        self._model0 = model0
         oracle = None
         if exc is None and oracle_fn is not None:
             try:
@@ -775,6 +782,11 @@ class ProgGen:
 # comparison helpers
 # ----------------------------------------------------------------------------------------
 
+def _is_int_valued(x):
+    x = np.asarray(x)
+    return bool(np.all(np.real(x) == np.round(np.real(x))) and np.all(np.imag(x) == np.round(np.imag(x))))
+
+
 def real_obs(gen, st):
     """observables of the real result of a step as model-JSON (or error marker)"""
     yastn = gen.yastn
@@ -782,10 +794,17 @@ def real_obs(gen, st):
         return {"kind": "err", "err": type(st.exc).__name__, "msg": str(st.exc)[:200]}
     r = st.real
     if isinstance(r, yastn.Tensor):
+        if not gen.representable(r):
+            # outside the model (fused legs / non-integer data): structure only
+            return {"kind": "tensor", "opaque": True, "sym": r.config.sym.SYM_ID, "s": list(r.struct.s), "n": list(r.n),
+                    "diag": bool(r.isdiag), "blocks": [{"t": list(t), "D": list(D)} for t, D in zip(r.struct.t, r.struct.D)]}
         o = tgen.to_model(r)
         o["kind"] = "tensor"
         return o
-    c = complex(r)
+    try:
+        c = complex(r)
+    except Exception:  # noqa: BLE001
+        return {"kind": "other"}
     return {"kind": "num", "num": [int(c.real), int(c.imag)] if (c.real == int(c.real) and c.imag == int(c.imag)) else [c.real, c.imag]}
 
 
@@ -798,7 +817,11 @@ def check_oracle(gen, st):
     if kind == "num":
         ref = st.oracle[1]
         got = complex(r)
-        return None if got == ref else f"number {got} != dense reference {ref}"
+        if got == ref:
+            return None
+        if not _is_int_valued(np.array([ref])) and abs(got - ref) <= 1e-9 * max(1.0, abs(ref)):
+            return None   # float operands (e.g. factors of an svd): exactness is only claimed for integer data
+        return f"number {got} != dense reference {ref}"
     if kind == "dense-compact":   # apply_mask: values equal the compressed array; masked-out sectors vanish
         _, ref, ax, keep, leg = st.oracle
         got = r.to_numpy()
@@ -860,6 +883,8 @@ def check_oracle(gen, st):
     if got.shape != ref.shape:
         return f"dense shape {got.shape} != reference {ref.shape}"
     if not np.array_equal(got, ref):
+        if not _is_int_valued(ref) and np.allclose(got, ref, rtol=1e-9, atol=1e-9 * max(1.0, float(np.max(np.abs(ref))) if ref.size else 1.0)):
+            return None   # float operands: compare to round-off
         return "dense values differ from the NumPy reference"
     return None
 
